@@ -39,6 +39,9 @@ def run(tier, seed, only=None):
     if tier == 'thorough': os.environ['C20_FULL'] = '1'          # read by checks/h_c20.py in the worker processes
     from checks import h_c20
     specs = [dict(module='checks.h_c20', fn=f, cond_timeout=T, path_timeout=T / 2, setup='setup') for f in h_c20.HARNESSES]
+    # read tracking of attributes used by the condition of the query that returned the object, over an inheritance hierarchy
+    # (EntityMeta._set_rbits): the harness of C21 observes the same read set through a re-fetch
+    specs.append(dict(module='checks.h_c21', fn='sub_query_read', cond_timeout=T, path_timeout=T / 2, setup='setup'))
     if only: specs = [s for s in specs if only in s['fn']]
     rep.bounds = {
         'entity': 'one entity, integer key, 6 attributes: plain int, float, int optimistic=False, volatile int, nullable int, to-one reference',
